@@ -420,8 +420,9 @@ def rename_bases():
                       ('back', [('list', 'after', ['a1']), ('transition', [('from', ['G']), ('to', 'A')])])])]
     b2 = [('name', 'M'), ('initial', 'A'), ('context', 'Ctx'), ('async', True), ('dynamic', True),
           ('states', [('leaf', 'A', None), ('leaf', 'B', 'D0')]),
-          ('events', [('go', [('payload', 'P'), ('list', 'guards', ['g1']),
-                              ('transition', [('from', ['A', 'B']), ('to', 'B')])])])]
+          ('events', [('go', [('payload', 'P'), ('list', 'guards', ['g1']), ('list', 'before', ['b1']), ('list', 'after', ['a1']),
+                              ('list', 'around', ['w1']),
+                              ('transition', [('from', ['A', 'B']), ('to', 'B'), ('list', 'unless', ['u1'])])])])]
     b3 = [('name', 'M'), ('initial', 'A'),
           ('states', [('leaf', 'A', 'D0'), ('leaf', 'B', None), ('leaf', 'E', 'D1')]),
           ('events', [('go', [('list', 'guards', ['g1']), ('transition', [('from', ['A']), ('to', 'B')])]),
@@ -653,7 +654,8 @@ def run(ctx, prop, what, rep):
         for p in r['problems'][:6]:
             rep.violate('k3', p['what'], {'kind': 'k3-rename', 'dsl': p['dsl'], 'role': p['role'], 'new': p['new'],
                                           'ops': p['ops'], 'observed': p['observed']})
-        if r['capture']['compiles_with_captured_type']:
+        # the capture by the generated type parameters is C18's finding; C12 borrows this batch for the names in errors only
+        if prop == 'C18' and r['capture']['compiles_with_captured_type']:
             rep.violate('k3', 'a state named like the generated generic parameter is captured: Mcap::new(7u8) has type Mcap<u8, u8>',
                         {'kind': 'k3-capture', 'dsl': 'name: Mcap, initial: C, states: [C, B], events { go { transition: { from: C, to: B } } }'})
     else:
